@@ -186,6 +186,15 @@ func (fr *Frame) evalIdent(e *CExpr, ctx *evalCtx) *Val {
 			return v
 		}
 	}
+	// ghost globals of the contract file
+	if ts, ok := fr.eng.cf.GhostVars[name]; ok {
+		t := fr.eng.parseType(ts)
+		l := &Loc{kind: locGlobal, root: "G$ghost$" + name, typ: t}
+		return fr.load(l)
+	}
+	if name == "ioEOF" { // the io.EOF sentinel
+		return &Val{t: mkIfc("1000000", "999999"), sort: sIfc, typ: fr.eng.parseType("error")}
+	}
 	// package level
 	if obj := fr.eng.tpkg.Scope().Lookup(name); obj != nil {
 		switch o := obj.(type) {
